@@ -1,7 +1,7 @@
 """Scripted fake Switcher device: a real asyncio TCP server on <private loopback ip>:9957 and :10000.
 
-* Frame boundaries come from a harness-side tap on asyncio.StreamWriter.write (the *length* of every
-  client write call); the bytes themselves always come from the socket.
+* Frame boundaries come from a harness-side tap on the client's socket transport write/writelines (the *length* of
+  every byte string the client hands to its socket); the bytes themselves always come from the socket.
 * Replies come from a script, one entry per received frame: {"data": bytes, "delay": turns} or {"eof": True}.
 """
 import asyncio
@@ -18,21 +18,45 @@ EOF = {"eof": True}
 
 
 def install_tap():
+    """Record the length of every byte string handed to a client-side TCP transport.
+
+    The tap sits on the selector socket transport (write and writelines), i.e. below StreamWriter, so it sees the
+    byte strings whichever stream API the client uses.
+    """
     global _TAP_INSTALLED
     if _TAP_INSTALLED:
         return
-    orig = asyncio.StreamWriter.write
+    from asyncio import selector_events
 
-    def write(self, data):
+    cls = selector_events._SelectorSocketTransport
+    orig_write = cls.write
+    orig_writelines = getattr(cls, "writelines", None)
+
+    def note(transport, n):
         try:
-            sn = self.transport.get_extra_info("sockname")
+            sn = transport.get_extra_info("sockname")
         except Exception:
             sn = None
-        if sn is not None and sn[1] not in (PORT1, PORT2):
-            _TAP.setdefault(tuple(sn[:2]), deque()).append(len(data))
-        return orig(self, data)
+        if n and sn is not None and sn[1] not in (PORT1, PORT2):     # an empty write puts nothing on the wire
+            _TAP.setdefault(tuple(sn[:2]), deque()).append(n)
 
-    asyncio.StreamWriter.write = write
+    def write(self, data):
+        if not getattr(self, "_verif_in_writelines", False):
+            note(self, len(data))
+        return orig_write(self, data)
+
+    cls.write = write
+    if orig_writelines is not None:
+        def writelines(self, list_of_data):
+            chunks = [bytes(d) for d in list_of_data]
+            note(self, sum(len(c) for c in chunks))
+            self._verif_in_writelines = True
+            try:
+                return orig_writelines(self, chunks)
+            finally:
+                self._verif_in_writelines = False
+
+        cls.writelines = writelines
     _TAP_INSTALLED = True
 
 
@@ -138,13 +162,6 @@ class FakeDevice:
                             await self._frame(conn, writer, frame, "untapped")
             if buf:
                 await self._frame(conn, writer, buf, "leftover")
-            # zero-length writes never produce bytes; report them as empty byte strings
-            q = _TAP.get(peer)
-            while q:
-                n = q.popleft()
-                if n == 0:
-                    conn.frames.append(b"")
-                    conn.flags.append("empty-write")
         finally:
             conn.client_eof = True
             self.open -= 1
